@@ -89,6 +89,7 @@ func runLockmon(cfg *RunCfg, rep *Reporter, cov *Cov) {
 	runBlockingOpenFails(cfg, rep, cov)
 	runROConcurrent(cfg, rep, cov)
 	runROCloseVsQuery(cfg, rep, cov)
+	runCloseVsDelete(cfg, rep, cov)
 }
 
 func runLockSeq(cfg *RunCfg, rep *Reporter, cov *Cov, code int, seq []lockAct) {
@@ -478,6 +479,103 @@ func runROConcurrent(cfg *RunCfg, rep *Reporter, cov *Cov) {
 			}
 		}
 		cov.Distinct("lock", fmt.Sprintf("ro-concurrent|%s|handles=%d", icfg, len(hs)))
+		os.RemoveAll(dir)
+	}
+}
+
+// runCloseVsDelete: once Close of the writer has returned, the directory belongs to whoever opens it
+// next: a Delete that was in progress on the closed handle (held at a pause point between its
+// rewrite and its swap) must not touch the directory after that. Close may wait for it.
+func runCloseVsDelete(cfg *RunCfg, rep *Reporter, cov *Cov) {
+	points := []string{"delete.afterRewrite", "delete.afterFind", "delete.afterSyncUnlock"}
+	for k := 0; k < 6; k++ {
+		point := points[k%3]
+		dir := filepath.Join(cfg.Scratch, fmt.Sprintf("cvd%d", k))
+		l, err := kOpen(dir, OpenOpts{Rollover: 150, Create: true, KeyIndex: true})
+		if err != nil {
+			continue
+		}
+		for i := 0; i < 8; i++ {
+			kPublish(l, []klevdb.Message{{Key: []byte("k"), Value: []byte(fmt.Sprintf("value-%02d-0123456789", i))}})
+		}
+		target := int64(0) // first message of the oldest segment: the rewrite is renamed, the old files removed
+		if k >= 3 {
+			target = 7 // the head
+		}
+		hm := &hookMode{dyn: map[int64]*hookClient{}}
+		installHook(hm)
+		hc := &hookClient{id: 1, points: map[string]int{}, hits: map[string]int{}, arrived: make(chan string, 1), release: make(chan struct{}), armPoint: point, armNth: 1}
+		dDone := make(chan error, 1)
+		go func() {
+			hm.mu.Lock()
+			hm.dyn[goid()] = hc
+			hm.mu.Unlock()
+			_, _, err := kDelete(l, map[int64]struct{}{target: {}})
+			dDone <- err
+		}()
+		held := false
+		select {
+		case <-hc.arrived:
+			held = true
+		case err := <-dDone:
+			dDone <- err
+		case <-time.After(20 * time.Second):
+		}
+		cDone := make(chan error, 1)
+		gch := make(chan int64, 1)
+		go func() {
+			gch <- goid()
+			cDone <- kClose(l)
+		}()
+		cGid := <-gch
+		how := "returned-while-delete-held"
+		closedEarly := false
+		var atClose map[string][]byte
+		if held {
+		wait:
+			for spin := 0; spin < 20000; spin++ {
+				select {
+				case err := <-cDone:
+					cDone <- err
+					closedEarly = true
+					break wait
+				default:
+				}
+				if spin%20 == 19 {
+					if ws, ok := waitStates()[cGid]; ok && isBlockedState(ws[0]) {
+						how = "waited-for-the-delete"
+						break wait
+					}
+				}
+				time.Sleep(50 * time.Microsecond)
+			}
+			if closedEarly {
+				atClose, _ = dirSnapshot(dir)
+			}
+			close(hc.release)
+		}
+		var cerr error
+		select {
+		case cerr = <-cDone:
+		case <-time.After(30 * time.Second):
+			installHook(nil)
+			rep.Report(Violation{Property: "C19", Sig: "lockmon|close-vs-delete:close-stuck", What: "Close never returned after the Delete that was in progress finished", Replay: map[string]any{"point": point}})
+			continue
+		}
+		select {
+		case <-dDone:
+		case <-time.After(30 * time.Second):
+		}
+		installHook(nil)
+		cov.Add("evaluations", 1)
+		cov.Distinct("lock", fmt.Sprintf("close-vs-delete|%s|%s", point, how))
+		_ = cerr
+		if closedEarly {
+			after, _ := dirSnapshot(dir)
+			if ok, why := snapEqual(atClose, after); !ok {
+				rep.Report(Violation{Property: "C19", Sig: "lockmon|close-vs-delete:writes-after-close", What: fmt.Sprintf("Close returned while a Delete on the same handle was in progress (held at %s); after Close had returned - the directory lock is free, another process may own the directory - that Delete went on and changed the directory: %s", point, why), Replay: map[string]any{"point": point, "target_offset": target}})
+			}
+		}
 		os.RemoveAll(dir)
 	}
 }
